@@ -1,6 +1,8 @@
 package main
 
 import (
+	"github.com/wormhole-foundation/example-near-light-client/types"
+	"github.com/wormhole-foundation/example-near-light-client/variables"
 	"encoding/json"
 	"fmt"
 	"math/big"
@@ -36,9 +38,24 @@ type circuitReplay struct {
 	// KeyEdits alter the verifier data BEFORE the circuit is built (template and assignment alike):
 	// a wrapper built for another key. Index 0..15 = constants/sigmas cap entry, 16 = circuit digest.
 	KeyEdits []keyEdit `json:"key_edits,omitempty"`
+	// Only, when "rangeCheckProof", runs just verifier.(*VerifierChip).rangeCheckProof on the proof (the
+	// one place where proof elements are forced into canonical form) instead of the whole verifier.
+	Only string `json:"only,omitempty"`
 	// Commit runs the circuit with the commitment-based range checker (environment switch unset; the
 	// test engine is a frontend.Committer) instead of bit decomposition.
 	Commit bool `json:"commit_checker,omitempty"`
+}
+
+// rangeCheckProofCircuit runs the real rangeCheckProof alone.
+type rangeCheckProofCircuit struct {
+	Proof  variables.Proof
+	Common types.CommonCircuitData `gnark:"-"`
+}
+
+func (c *rangeCheckProofCircuit) Define(api frontend.API) error {
+	chip := verifier.NewVerifierChip(api, c.Common)
+	fn[func(*verifier.VerifierChip, variables.Proof)]("verifier.VerifierChip.rangeCheckProof")(chip, c.Proof)
+	return nil
 }
 
 type keyEdit struct {
@@ -173,11 +190,16 @@ func runCircuitReplay(c *circuitReplay, repo string) (accepted bool, msg string)
 		}
 		return out
 	}
-	switch c.Wrapper {
-	case "verifier":
+	if c.Only == "rangeCheckProof" {
+		circuit = &rangeCheckProofCircuit{Proof: cloneValue(in.Proof.Proof), Common: in.Common}
+		witness = &rangeCheckProofCircuit{Proof: cloneValue(in.Proof.Proof), Common: in.Common}
+	}
+	switch {
+	case c.Only == "rangeCheckProof":
+	case c.Wrapper == "verifier":
 		circuit = &verifier.VerifierCircuit{Proof: cloneValue(in.Proof.Proof), PublicInputs: cloneValue(in.Proof.PublicInputs), VerifierData: cloneValue(in.VD), CommonCircuitData: in.Common}
 		witness = &verifier.VerifierCircuit{Proof: cloneValue(in.Proof.Proof), PublicInputs: cloneValue(in.Proof.PublicInputs), VerifierData: cloneValue(in.VD), CommonCircuitData: in.Common}
-	case "fixed":
+	case c.Wrapper == "fixed":
 		circuit = &verifier.CircuitFixed{ProofWithPis: cloneValue(in.Proof), VerifierData: cloneValue(in.VD), CommonCircuitData: in.Common, PublicInputs: packed()}
 		witness = &verifier.CircuitFixed{ProofWithPis: cloneValue(in.Proof), VerifierData: cloneValue(in.VD), CommonCircuitData: in.Common, PublicInputs: packed()}
 	default:
